@@ -466,7 +466,7 @@ macro_rules! elem_reg {
         $crate::reg!($v; $t, Option<$t>, Vec<$t>, std::collections::VecDeque<$t>, std::collections::LinkedList<$t>, [$t; 2], Box<$t>,
              Vec<Vec<$t>>, Vec<Option<$t>>, Option<Vec<$t>>, Option<Option<$t>>, ($t, u8), (String, $t), Result<$t, String>,
              $crate::types::G<$t>, $crate::types::H<$t>, $crate::types::List<$t>,
-             std::collections::BTreeMap<String, Vec<$t>>, Vec<std::collections::BTreeMap<u8, $t>>);
+             std::collections::BTreeMap<String, Vec<$t>>, Vec<std::collections::BTreeMap<u8, $t>>, Vec<Box<$t>>);
     )* };
 }
 
@@ -512,5 +512,5 @@ pub fn register_misc(v: &mut Vec<Entry>) {
          FQuery, FOne, Svc, WithRefs, Vec<FQuery>, Option<Svc>, BTreeMap<Principal, Svc>,
          (u8, u16, u32), (Nat, Int, String), ((u8, u8), (Nat, Nat)), Vec<(String, Nat)>, Vec<(u8, Int)>, Vec<(Principal, Int)>,
          Result<S2, E1>, Result<(), ()>, Vec<Result<Nat, Int>>, Box<List<u8>>, Vec<Vec<Vec<u8>>>, Vec<Vec<Nat>>, Vec<Vec<Int>>,
-         Option<Vec<Vec<Int>>>, BTreeMap<(u8, u8), Nat>, BTreeMap<Option<u8>, Int>, BTreeMap<Vec<u8>, Int>);
+         Option<Vec<Vec<Int>>>, [Box<u64>; 2], [Box<f64>; 2], Vec<Box<S2>>, Option<Vec<Box<i64>>>, H<Box<u64>>, H<Box<f64>>, BTreeMap<(u8, u8), Nat>, BTreeMap<Option<u8>, Int>, BTreeMap<Vec<u8>, Int>);
 }
